@@ -83,7 +83,8 @@ class Module:
         self.source = source
         self.lines = source.splitlines()
         raw = ast.parse(source, filename=path)
-        self.renamed_locals = _alpha_normalise(raw, relpath)  # first: the canonical operand order depends on names
+        self.digest = hashlib.sha256(source.encode()).hexdigest()[:16]
+        self.renamed_locals = _alpha_normalise(raw, relpath, self.digest)  # first: the canonical operand order depends on names
         self.tree = canonicalise(raw)
         self.funcs: dict[str, Func] = {}  # top-level functions by name
         self.classes: dict[str, Class] = {}
@@ -227,7 +228,7 @@ class _CanonStmts(ast.NodeTransformer):
 _LOCALNAMES: dict | None = None
 
 
-def _alpha_normalise(tree: ast.AST, relpath: str) -> int:
+def _alpha_normalise(tree: ast.AST, relpath: str, digest: str | None = None) -> int:
     """rename recognised function locals back to the reference names (sa/alpha.py)"""
     global _LOCALNAMES
     if os.environ.get("VERIF_NO_ALPHA"):
@@ -239,7 +240,7 @@ def _alpha_normalise(tree: ast.AST, relpath: str) -> int:
         except OSError:
             _LOCALNAMES = {}
     ref = _LOCALNAMES.get(relpath)
-    if not ref:
+    if not ref or (digest is not None and ref.get("__digest__") == digest):
         return 0
     from . import alpha
     return alpha.normalise(tree, ref)
